@@ -9,6 +9,7 @@ import (
 	"net"
 	"runtime"
 	"sync"
+	"sync/atomic"
 	"testing"
 	"time"
 
@@ -36,6 +37,11 @@ type callPlan struct {
 }
 type c10Case struct {
 	Callers [][]callPlan `json:"callers"`
+	// Correlation: the client carries kmipclient.CorrelationValueMiddleware (KMIP 1.4 client correlation values, which the
+	// server sends back in its response headers): "" (no middleware) | unique (a new value per request) | shared (one
+	// value for all requests, a transaction identifier) | alternate (every other request carries the shared value, the
+	// others none). Such a value labels a request; it does not identify an exchange.
+	Correlation string `json:"client_correlation_values,omitempty"`
 }
 
 // echoResponse builds the response the server produces for a request: it echoes the identifier it read.
@@ -45,7 +51,12 @@ func echoResponse(req *ttlvref.Node) []byte {
 	if ver != nil {
 		hdr.Kids = append(hdr.Kids, ver.Clone())
 	}
-	hdr.Kids = append(hdr.Kids, &ttlvref.Node{Tag: 0x420092, Type: ttlvref.DateTime, I: 1700000000}, &ttlvref.Node{Tag: tBatchCount, Type: ttlvref.Integer, I: 1})
+	hdr.Kids = append(hdr.Kids, &ttlvref.Node{Tag: 0x420092, Type: ttlvref.DateTime, I: 1700000000})
+	if ccv := find(req, 0x420105); ccv != nil {
+		// a 1.4 server sends the client correlation value back
+		hdr.Kids = append(hdr.Kids, ccv.Clone())
+	}
+	hdr.Kids = append(hdr.Kids, &ttlvref.Node{Tag: tBatchCount, Type: ttlvref.Integer, I: 1})
 	id := find(req, 0x420094)
 	op := find(req, tOperation)
 	item := &ttlvref.Node{Tag: tBatchItem, Type: ttlvref.Structure, Kids: []*ttlvref.Node{op.Clone(), {Tag: tResultStatus, Type: ttlvref.Enumeration, I: 0},
@@ -181,7 +192,23 @@ func c10Run(c c10Case) (sig string, err error) {
 			srv.gotReq2[p.ID] = make(chan struct{})
 		}
 	}
-	cl, derr := kmipclient.Dial("verif", kmipclient.EnforceVersion(kmip.V1_4), kmipclient.WithDialerUnsafe(func(ctx context.Context) (net.Conn, error) {
+	var ccvN atomic.Int64
+	c10opts := []kmipclient.Option{kmipclient.EnforceVersion(kmip.V1_4)}
+	if c.Correlation != "" {
+		c10opts = append(c10opts, kmipclient.WithMiddlewares(kmipclient.CorrelationValueMiddleware(func() string {
+			n := ccvN.Add(1)
+			switch c.Correlation {
+			case "unique":
+				return fmt.Sprintf("ccv-%d", n)
+			case "alternate":
+				if n%2 == 0 {
+					return ""
+				}
+			}
+			return "txn-7"
+		})))
+	}
+	cl, derr := kmipclient.Dial("verif", append(c10opts, kmipclient.WithDialerUnsafe(func(ctx context.Context) (net.Conn, error) {
 		a, b := memnet.Pipe()
 		srv.mu.Lock()
 		srv.conns = append(srv.conns, a, b)
@@ -220,7 +247,7 @@ func c10Run(c c10Case) (sig string, err error) {
 		}
 		go srv.serve(b)
 		return a, nil
-	}))
+	}))...)
 	if derr != nil {
 		return "harness-dial", derr
 	}
@@ -427,7 +454,7 @@ func c10Run(c c10Case) (sig string, err error) {
 func TestC10OwnResponse(t *testing.T) {
 	const name = "TestC10OwnResponse"
 	rec := evid.New("C10", name, "1..4 caller goroutines sharing one client, each issuing 1..4 calls with unique identifiers; per call a cancellation plan (none, context already cancelled, cancelled while the request is half written, cancelled at the moment its last byte is written, cancelled between send and receive once the server has read the request, "+
-		"cancelled once the server has written the reply, cancelled explicitly a few milliseconds into the wait for the answer, 15 ms deadline) and a server plan (reply at once, reply late - after the call was abandoned, or only after one or two further calls of that caller, answers leaving each connection in request order -, never reply, close the connection, close the connection after reading the request and answer the retransmission late, send a server-originated request before or after the reply); the send/recv window is owned by the generator through the yield-point hook; real time, event driven; "+
+		"cancelled once the server has written the reply, cancelled explicitly a few milliseconds into the wait for the answer, 15 ms deadline) and a server plan (reply at once, reply late - after the call was abandoned, or only after one or two further calls of that caller, answers leaving each connection in request order -, never reply, close the connection, close the connection after reading the request and answer the retransmission late, send a server-originated request before or after the reply); the client optionally carries the correlation value middleware (a new value per request, one value shared by all requests, or every other request only), the server sending the values back as a 1.4 server does; the send/recv window is owned by the generator through the yield-point hook; real time, event driven; "+
 		"oracle: every call returns within 30 s with an error or the response echoing its own identifier, undisturbed calls succeed; non-trivial = a call cancelled mid-exchange is followed by a later call, or >= 2 callers; distinct by case").Attach(t)
 	if rp := evid.LoadReplay(name); rp != nil {
 		var c c10Case
@@ -480,8 +507,9 @@ func TestC10OwnResponse(t *testing.T) {
 			}
 			c.Callers = append(c.Callers, calls)
 		}
+		c.Correlation = rapid.SampledFrom([]string{"", "", "unique", "shared", "alternate"}).Draw(rt, "correlation")
 		key, _ := json.Marshal(c)
-		rec.Case(nt, key, fmt.Sprintf("callers=%d", n))
+		rec.Case(nt, key, fmt.Sprintf("callers=%d", n), "correlation="+c.Correlation)
 		if nt && rec.WantSample() {
 			rec.Sample(c)
 		}
